@@ -76,6 +76,18 @@ func Emit(x int) int {
 	return len(strings.Join(w.parts, "")) + x
 }
 
+type job struct{ id, acc int }
+
+func (j job) work(n int) int {
+	for i := 0; i < n; i++ {
+		j.acc += j.id + i
+	}
+	return j.acc
+}
+
+// Work is a method value whose method uses its value receiver as scratch space.
+var Work = job{id: 5}.work
+
 // MV is a method value stored in a variable.
 var MV = T{K: 3}.M
 
